@@ -25,8 +25,11 @@ Needs(b)      == Mul(b.v, FromInt(b.kk))
 FitsU64(b)    == b.def /\ Less(Needs(b), Two64)
 FitsI64(b)    == b.def /\ Less(Needs(b), Two63)
 
+(* C(n, k) through the smaller of k and n-k when n is small enough to be an integer (cost only) *)
+BinomSym(n, k) == IF Len(n) <= 2 THEN LET ni == ToInt(n) IN IF ni < k THEN <<>> ELSE Binom(n, IF k < ni - k THEN k ELSE ni - k)
+                  ELSE Binom(n, k)
 RECURSIVE RankFrom(_, _)
-RankFrom(s, i) == IF i > Len(s) THEN <<>> ELSE Add(Binom(s[i], i), RankFrom(s, i + 1))
+RankFrom(s, i) == IF i > Len(s) THEN <<>> ELSE Add(BinomSym(s[i], i), RankFrom(s, i + 1))
 ColexRank(s)  == RankFrom(s, 1)                     \* s: sequence of BigNat, strictly increasing
 StrictlyIncreasing(s) == \A i \in 1..(Len(s) - 1) : Less(s[i], s[i+1])
 =============================================================================
